@@ -208,6 +208,57 @@ def _io_case(draw):
     return {"cfg": cfg, "x4": x4, "x6": draw(G.v6_int)}
 
 
+def check_io_long(case, ev):
+    """One physical line (> 64 KiB) of addresses next to the preserved prefixes through anonymize_io:
+    every output token keeps its membership in every preserved prefix and its host bits."""
+    import ipaddress
+
+    cfg, xs = case["cfg"], case["xs"]
+    fa, exc = guarded(G.file_anonymizer, cfg)
+    if exc is not None:
+        return core.exc_finding(exc, case, "ctor/")
+    line = " ".join(G.v4_canon(x) for x in xs)
+    out, exc = guarded(core.run_io, fa, line + "\n")
+    if exc is not None:
+        return core.exc_finding(exc, case, "io/")
+    parts = out.split()
+    ev.bulk(len(xs), len(xs), sample={"cfg": cfg, "tokens": len(xs)})
+    if len(parts) != len(xs):
+        return Finding("io/long-line-token-count-changed", "%d tokens in, %d out" % (len(xs), len(parts)), {"cfg": cfg, "xs": xs[:50]})
+    pf = [G.parse_cidr(p) for p in G.effective_prefixes(cfg)]
+    for x, t in zip(xs, parts):
+        try:
+            y = int(ipaddress.IPv4Address(t))
+        except ValueError:
+            return Finding("io/long-line-output-not-an-address", "%s -> %r" % (G.v4_canon(x), t), {"cfg": cfg, "xs": xs[:50]})
+        if G.is_mask(x):
+            continue
+        if (x ^ y) & ((1 << cfg["B4"]) - 1) or any((G.net_of(x, l) == v) != (G.net_of(y, l) == v) for v, l in pf):
+            return Finding("io/long-line-prefix-or-host-bits-not-kept", "cfg=%r: in a line of %d tokens %s -> %s" % (cfg, len(xs), G.v4_canon(x), t), case)
+    return None
+
+
+REPLAY["io_long"] = check_io_long
+
+
+def t_io_long(shard, nshards, seed, ev, known, n=6000):
+    out = []
+    for k in range(nshards):
+        if k % nshards != shard:
+            continue
+        cfg = {"salt": "il%d" % k, "B4": [8, 0][k % 2], "B6": 8, "prefixes": None, "networks": None, "mode": "default"}
+        xs = []
+        for i in range(n):
+            h = core.derive("il", seed, k, i)
+            v, l = G.parse_cidr(G.DEFAULT_PREFIXES[h % 7])
+            x = v | ((h >> 8) & ((1 << (32 - l)) - 1))
+            if (h >> 3) % 4 == 0:
+                x ^= 1 << (31 - (h >> 5) % max(l, 1))
+            xs.append(x & G.M32)
+        out.append({"cfg": cfg, "xs": xs})
+    return core.enum_drive(out, check_io_long, ev, known, "io_long")
+
+
 def t_io(shard, nshards, seed, ev, known, n=300):
     return core.hyp_drive(_io_case(), check_io, n, seed, ev, known, check_name="io")
 
@@ -232,6 +283,7 @@ def plan(tier):
     return [
         Task("addr", t_addr, shards=4 if q else 16, n=2000 if q else 50000),
         Task("io", t_io, shards=2 if q else 8, n=400 if q else 10000),
+        Task("io_long", t_io_long, shards=2 if q else 6, n=6000 if q else 20000),
         Task("edges", t_edges, shards=2 if q else 8, nsalts=40 if q else 400),
         Task("bulk", t_bulk, shards=3 if q else 8, n=1 if q else 4, size=24000 if q else 60000),
     ]
